@@ -368,6 +368,11 @@ def run_check(mod, tier, seed, replay=None):
         print("model: %s" % canon(mobs[0])[:3000])
         print("executable statement: %s" % ("holds" if failure is None else "FAILS: %s" % failure))
         print("correspondence: %s" % ("agrees" if disagree is None else "DIFFERS"))
+        if failure is not None:
+            kid = fam.known(case, iobs[0], failure)
+            if kid is not None and kid in known:
+                print("KNOWN-FINDING: property=%s %s (id=%s)" % (pid, known[kid]["what"], kid))
+                failure = None
         if failure is not None or disagree is not None:
             print("VIOLATION property=%s replay=%s%s" % (pid, replay, "" if failure else " no-failing-input-found"))
             return 1
